@@ -18,7 +18,7 @@ done
 [ $ok = 1 ] && echo "suite-with-change: PASS" || { echo "suite-with-change: FAIL"; grep -E "^(--- FAIL|FAIL)" /tmp/confirm_suite_$$.log | head; }
 mkdir -p "$(dirname "$LOC")"; cp "$DEMO" "$LOC"
 PKG=./$(dirname "$LOC")
-if timeout 120 go test -vet=off -count=1 -timeout 60s "$PKG" >/tmp/confirm_demo_$$.log 2>&1; then echo "demo-with-change: PASS (bad)"; else echo "demo-with-change: FAIL (good)"; fi
+if timeout 120 go test -vet=off -count=1 -timeout 60s -run TestZZDemo "$PKG" >/tmp/confirm_demo_$$.log 2>&1; then echo "demo-with-change: PASS (bad)"; else echo "demo-with-change: FAIL (good)"; fi
 git apply -R "$D/patch.diff"
-if timeout 120 go test -vet=off -count=1 -timeout 60s "$PKG" >/tmp/confirm_demo2_$$.log 2>&1; then echo "demo-without-change: PASS (good)"; else echo "demo-without-change: FAIL (bad)"; tail -5 /tmp/confirm_demo2_$$.log; fi
+if timeout 120 go test -vet=off -count=1 -timeout 60s -run TestZZDemo "$PKG" >/tmp/confirm_demo2_$$.log 2>&1; then echo "demo-without-change: PASS (good)"; else echo "demo-without-change: FAIL (bad)"; tail -5 /tmp/confirm_demo2_$$.log; fi
 rm -f /tmp/confirm_*_$$.log
